@@ -12,6 +12,7 @@ import (
 	"net/http/httptest"
 	"path"
 	"sort"
+	"strings"
 	"sync"
 
 	"github.com/ipni/go-libipni/dhash"
@@ -226,16 +227,45 @@ func runCase(tc *tcase, salt int, viaHTTP bool) (got [][]string, panicked string
 	if e != nil {
 		return nil, "", e
 	}
-	// FindAsync is what Find runs in a goroutine of its own; calling it here keeps a panic recoverable.
-	resCh := make(chan model.ProviderResult, 64)
-	e = cl.FindAsync(context.Background(), mhOf(tc.Q), resCh)
-	if e != nil {
-		return nil, "", nil // an error is an allowed outcome for a hostile store; results would be empty
+	// the in-process store hands out the byte slices it holds (as an embedded dhstore does): a lookup must leave them alone,
+	// and asking again must give the same answer
+	before := st.snapshot()
+	lookup := func() (out [][]string) {
+		// FindAsync is what Find runs in a goroutine of its own; calling it here keeps a panic recoverable.
+		resCh := make(chan model.ProviderResult, 64)
+		if e := cl.FindAsync(context.Background(), mhOf(tc.Q), resCh); e != nil {
+			return nil // an error is an allowed outcome for a hostile store; results would be empty
+		}
+		for pr := range resCh {
+			out = append(out, []string{pidName(pr.Provider.ID), ctxName(pr.ContextID), mdName(pr.Metadata)})
+		}
+		return out
 	}
-	for pr := range resCh {
-		got = append(got, []string{pidName(pr.Provider.ID), ctxName(pr.ContextID), mdName(pr.Metadata)})
+	got = lookup()
+	if after := st.snapshot(); after != before {
+		sideEffects = append(sideEffects, fmt.Sprintf("store-modified-by-lookup: query %s, the store's blobs differ after the lookup (via HTTP: %v)", tc.Q, viaHTTP))
+	}
+	if again := lookup(); canon(again) != canon(got) {
+		sideEffects = append(sideEffects, fmt.Sprintf("second-lookup-differs: query %s: first %v, second %v (via HTTP: %v)", tc.Q, got, again, viaHTTP))
 	}
 	return got, "", nil
+}
+
+// sideEffects collects what runCase noticed besides the result of the lookup.
+var sideEffects []string
+
+func (s *store) snapshot() string {
+	var keys []string
+	for k, v := range s.vks {
+		for i, b := range v {
+			keys = append(keys, fmt.Sprintf("vk %x %d %x", k, i, b))
+		}
+	}
+	for k, v := range s.mds {
+		keys = append(keys, fmt.Sprintf("md %x %x", k, v))
+	}
+	sort.Strings(keys)
+	return strings.Join(keys, "\n")
 }
 
 func pidName(p peer.ID) string {
@@ -455,6 +485,10 @@ func Run(args []string) *rep.Report {
 			}
 			r.Diverge(rep.Divergence{Key: k, Case: tc, Expected: tc.Out, Observed: got})
 		}
+		for _, se := range sideEffects {
+			r.Diverge(rep.Divergence{Key: strings.SplitN(se, ":", 2)[0], Case: tc, Detail: se})
+		}
+		sideEffects = nil
 		return nil
 	})
 	if err != nil {
